@@ -499,6 +499,8 @@ def tt_ind2sub(
     if idx.size == 0:
         return np.empty(shape=(0, len(shape)), dtype=int)
     # Handle negative indexing as simply as possible (without modifying the caller's array)
+    # (in a wide integer type: the tensor size may not fit the type of the indices)
+    idx = np.asarray(idx).astype(np.int64)
     idx = np.where(idx < 0, idx + prod(shape), idx)
     return np.array(np.unravel_index(idx, shape, order=order)).transpose()
 
